@@ -41,6 +41,10 @@ var (
 
 const stallLimit = 40 * time.Second
 
+// usedReceiver: when set, tryDecode first decodes and queries these (valid) bytes with the same
+// receiver, then decodes the damaged stream into it.
+var usedReceiver []byte
+
 var traceFaults = os.Getenv("VERIF_TRACE_FAULTS") != ""
 
 func startC15Watchdog(rc *runCtx, res *RunResult) func() {
@@ -95,7 +99,14 @@ func tryDecode(ct *codecType, data []byte, plan simio.ReadPlan, shape int, pts [
 		}
 	}()
 	r := simio.NewShapedReader(data, plan, shape)
-	v, err := ct.decode(r)
+	var v any
+	var err error
+	if usedReceiver != nil {
+		// decode into a receiver that already holds (and was queried as) another value
+		v, err = ct.decode2(simio.NewShapedReader(usedReceiver, simio.NoReadFaults(), simio.ShapeByteReader), r, func(x any) { ct.use(x, pts, cells) })
+	} else {
+		v, err = ct.decode(r)
+	}
 	if err != nil {
 		out.err = true
 		return
@@ -505,6 +516,15 @@ func runC15Seq(rc *runCtx) *RunResult {
 	res.Sig = fnv(data) ^ uint64(len(data))<<32 ^ uint64(len(plan.Chunks))
 	res.Nontrivial = len(data) != len(enc) || !bytes.Equal(data, enc) || plan.FailAt >= 0
 	rc.inc("evals", 1)
+	usedReceiver = nil
+	if t.Chance(200) {
+		if fb, err := encodeValue(dct, dct.draw(g)); err == nil {
+			usedReceiver = fb
+			desc += fmt.Sprintf("into a receiver that held another %s (%d bytes) ", dct.name, len(fb))
+			rc.inc("decode_into_used_receiver", 1)
+		}
+	}
+	defer func() { usedReceiver = nil }()
 	o := tryDecode(dct, data, plan, br, pts, cells, fmt.Sprintf("%s encoding (%d bytes) with %s", ct.name, len(enc), desc))
 	if o.viol != nil {
 		res.Viol = o.viol
